@@ -1,0 +1,355 @@
+//! Verification hooks (cargo feature `verif`, off by default).
+//!
+//! Nothing in here changes the behaviour of the library: the hooks only
+//! *observe* internal events (exact tie decisions, the integer-grid map, the
+//! neighbour visit sequence, the start of each cell's construction) or expose
+//! crate-private functions through thin wrappers that call the real code.
+
+use super::{
+    boundary::SimulationBoundary,
+    convex_cell::{ConvexCell, WithoutFaces},
+    half_space::HalfSpace,
+    Dimensionality, Generator,
+};
+use crate::bounding_sphere::{BoundingSphereSolver, Epos6, Welzl};
+use crate::geometry::{in_sphere_test_exact, Sphere};
+use crate::rtree_nn::{build_rtree, nn_iter, wrapping_nn_iter};
+use crate::space::Space;
+use glam::DVec3;
+use std::cell::RefCell;
+use std::sync::atomic::{AtomicBool, AtomicU64, Ordering};
+use std::sync::Mutex;
+
+/// One exact tie decision taken inside `clip_by_plane`.
+#[derive(Clone, Debug)]
+pub struct ExactEvent {
+    /// Index of the cell under construction.
+    pub cell: usize,
+    /// Integer-grid points a, b, c, d, v handed to the exact predicate.
+    pub ipts: [[i64; 3]; 5],
+    /// The positions these grid points were derived from.
+    pub fpts: [DVec3; 5],
+    /// The value returned by the exact predicate.
+    pub result: f64,
+}
+
+/// One candidate neighbour visited by `ConvexCell::build`.
+#[derive(Clone, Debug)]
+pub struct CandidateEvent {
+    pub cell: usize,
+    pub ngb: usize,
+    pub shift: Option<DVec3>,
+    pub dist: f64,
+    /// Safety radius of the cell at the moment the candidate was examined.
+    pub safety_radius: f64,
+}
+
+/// Per-thread trace of the events observed between `trace_begin` and
+/// `trace_end`.
+#[derive(Clone, Debug, Default)]
+pub struct Trace {
+    pub exact_count: u64,
+    pub exact_zero_count: u64,
+    pub exact: Vec<ExactEvent>,
+    pub exact_cap: usize,
+    pub candidates: Vec<CandidateEvent>,
+    pub candidate_cap: usize,
+    pub candidate_count: u64,
+    pub iloc_count: u64,
+    pub iloc_out_of_domain_count: u64,
+    /// First scaled coordinate triple seen outside of [1, 2).
+    pub iloc_first_out_of_domain: Option<DVec3>,
+}
+
+thread_local! {
+    static TRACE: RefCell<Option<Trace>> = const { RefCell::new(None) };
+    static LAST_SCALED: RefCell<DVec3> = const { RefCell::new(DVec3::ZERO) };
+}
+
+/// Start recording events produced on the current thread.
+pub fn trace_begin(exact_cap: usize, candidate_cap: usize) {
+    TRACE.with(|t| {
+        *t.borrow_mut() = Some(Trace {
+            exact_cap,
+            candidate_cap,
+            ..Default::default()
+        })
+    });
+}
+
+/// Stop recording on the current thread and return what was observed.
+pub fn trace_end() -> Trace {
+    TRACE.with(|t| t.borrow_mut().take()).unwrap_or_default()
+}
+
+#[inline]
+pub(crate) fn on_iloc(scaled: DVec3) {
+    LAST_SCALED.with(|l| *l.borrow_mut() = scaled);
+    TRACE.with(|t| {
+        if let Some(t) = t.borrow_mut().as_mut() {
+            t.iloc_count += 1;
+            let ok = |x: f64| x >= 1. && x < 2.;
+            if !(ok(scaled.x) && ok(scaled.y) && ok(scaled.z)) {
+                t.iloc_out_of_domain_count += 1;
+                if t.iloc_first_out_of_domain.is_none() {
+                    t.iloc_first_out_of_domain = Some(scaled);
+                }
+            }
+        }
+    });
+}
+
+#[inline]
+pub(crate) fn on_exact(cell: usize, ipts: [[i64; 3]; 5], fpts: [DVec3; 5], result: f64) {
+    TRACE.with(|t| {
+        if let Some(t) = t.borrow_mut().as_mut() {
+            t.exact_count += 1;
+            if result == 0. {
+                t.exact_zero_count += 1;
+            }
+            if t.exact.len() < t.exact_cap {
+                t.exact.push(ExactEvent {
+                    cell,
+                    ipts,
+                    fpts,
+                    result,
+                });
+            }
+        }
+    });
+}
+
+#[inline]
+pub(crate) fn on_candidate(
+    cell: usize,
+    ngb: usize,
+    shift: Option<DVec3>,
+    dist: f64,
+    safety_radius: f64,
+) {
+    TRACE.with(|t| {
+        if let Some(t) = t.borrow_mut().as_mut() {
+            t.candidate_count += 1;
+            if t.candidates.len() < t.candidate_cap {
+                t.candidates.push(CandidateEvent {
+                    cell,
+                    ngb,
+                    shift,
+                    dist,
+                    safety_radius,
+                });
+            }
+        }
+    });
+}
+
+// ---------------------------------------------------------------------------
+// Global (cross-thread) trace of the parallel cell loop.
+
+static CELL_TRACE_ON: AtomicBool = AtomicBool::new(false);
+static JITTER_SEED: AtomicU64 = AtomicU64::new(0);
+static CELL_TRACE: Mutex<Vec<(usize, usize)>> = Mutex::new(Vec::new());
+
+/// Switch the global cell-start trace on. `jitter_seed != 0` additionally
+/// injects a pseudo-random busy wait of 0-50 microseconds at the start of each
+/// cell's closure (an existing task boundary of the parallel loop).
+pub fn cell_trace_begin(jitter_seed: u64) {
+    CELL_TRACE.lock().unwrap().clear();
+    JITTER_SEED.store(jitter_seed, Ordering::SeqCst);
+    CELL_TRACE_ON.store(true, Ordering::SeqCst);
+}
+
+/// Switch the global cell-start trace off and return the recorded
+/// (worker thread index, cell index) pairs in the order they were started.
+pub fn cell_trace_end() -> Vec<(usize, usize)> {
+    CELL_TRACE_ON.store(false, Ordering::SeqCst);
+    JITTER_SEED.store(0, Ordering::SeqCst);
+    std::mem::take(&mut *CELL_TRACE.lock().unwrap())
+}
+
+#[inline]
+pub(crate) fn on_cell_start(idx: usize) {
+    if !CELL_TRACE_ON.load(Ordering::Relaxed) {
+        return;
+    }
+    let seed = JITTER_SEED.load(Ordering::Relaxed);
+    if seed != 0 {
+        let mut x = seed ^ (idx as u64).wrapping_mul(0x9E3779B97F4A7C15);
+        x ^= x >> 30;
+        x = x.wrapping_mul(0xBF58476D1CE4E5B9);
+        x ^= x >> 27;
+        let micros = x % 50;
+        let start = std::time::Instant::now();
+        while (start.elapsed().as_micros() as u64) < micros {
+            std::hint::spin_loop();
+        }
+    }
+    #[cfg(feature = "rayon")]
+    let thread = rayon::current_thread_index().unwrap_or(usize::MAX);
+    #[cfg(not(feature = "rayon"))]
+    let thread = 0;
+    CELL_TRACE.lock().unwrap().push((thread, idx));
+}
+
+// ---------------------------------------------------------------------------
+// Wrappers around crate-private functionality.
+
+/// The exact in-sphere predicate, as used by `clip_by_plane`.
+pub fn in_sphere_exact(a: &[i64; 3], b: &[i64; 3], c: &[i64; 3], d: &[i64; 3], v: &[i64; 3]) -> f64 {
+    in_sphere_test_exact(a, b, c, d, v)
+}
+
+/// The position -> integer grid map of a simulation boundary.
+pub struct Grid {
+    inner: SimulationBoundary,
+}
+
+impl Grid {
+    pub fn cuboid(anchor: DVec3, width: DVec3, periodic: bool, dimensionality: Dimensionality) -> Self {
+        Self {
+            inner: SimulationBoundary::cuboid(anchor, width, periodic, dimensionality),
+        }
+    }
+
+    pub fn iloc(&self, loc: DVec3) -> [i64; 3] {
+        self.inner.iloc(loc)
+    }
+
+    /// The scaled coordinates (expected in [1, 2)) computed by `iloc` for
+    /// `loc`, together with the grid point. In builds with debug assertions
+    /// `iloc` itself panics when the scaled value leaves the domain.
+    pub fn iloc_raw(&self, loc: DVec3) -> (DVec3, [i64; 3]) {
+        let i = self.inner.iloc(loc);
+        (LAST_SCALED.with(|l| *l.borrow()), i)
+    }
+
+    /// The scaled coordinates of the last `iloc` call on this thread (also
+    /// set when that call panicked afterwards).
+    pub fn last_scaled() -> DVec3 {
+        LAST_SCALED.with(|l| *l.borrow())
+    }
+
+    /// Planes of the initial cell (walls of the, possibly tripled, box).
+    pub fn wall_planes(&self) -> &[HalfSpace] {
+        &self.inner.clipping_planes
+    }
+}
+
+/// The sequence in which candidate neighbours are visited for the generator
+/// `query`, produced by exactly the iterator the builder uses.
+pub fn nn_sequence(
+    generators: &[DVec3],
+    query: usize,
+    width: DVec3,
+    dimensionality: Dimensionality,
+    periodic: bool,
+    limit: usize,
+) -> Vec<(usize, Option<DVec3>)> {
+    let generators: Vec<Generator> = generators
+        .iter()
+        .enumerate()
+        .map(|(id, &loc)| Generator::new(id, loc, dimensionality))
+        .collect();
+    let rtree = build_rtree(&generators);
+    let loc = generators[query].loc();
+    let iter = if periodic {
+        wrapping_nn_iter(&rtree, loc, width, dimensionality)
+    } else {
+        nn_iter(&rtree, loc)
+    };
+    iter.take(limit).collect()
+}
+
+/// Owns what is needed to build and clip single cells with the real code.
+pub struct CellBuilder {
+    generators: Vec<Generator>,
+    boundary: SimulationBoundary,
+    width: DVec3,
+    periodic: bool,
+    dimensionality: Dimensionality,
+}
+
+impl CellBuilder {
+    /// `anchor` and `width` are used as given (the caller normalises unused
+    /// axes for 1D/2D if wanted).
+    pub fn new(
+        generators: &[DVec3],
+        anchor: DVec3,
+        width: DVec3,
+        dimensionality: Dimensionality,
+        periodic: bool,
+    ) -> Self {
+        let generators: Vec<Generator> = generators
+            .iter()
+            .enumerate()
+            .map(|(id, &loc)| Generator::new(id, loc, dimensionality))
+            .collect();
+        Self {
+            generators,
+            boundary: SimulationBoundary::cuboid(anchor, width, periodic, dimensionality),
+            width,
+            periodic,
+            dimensionality,
+        }
+    }
+
+    pub fn generator_loc(&self, idx: usize) -> DVec3 {
+        self.generators[idx].loc()
+    }
+
+    /// The initial cell (the box, tripled when periodic) of generator `idx`.
+    pub fn init_cell(&self, idx: usize) -> ConvexCell<WithoutFaces> {
+        ConvexCell::init(self.generators[idx].loc(), idx, &self.boundary)
+    }
+
+    /// Clip `cell` with the real `clip_by_plane`.
+    pub fn clip(&self, cell: &mut ConvexCell<WithoutFaces>, half_space: HalfSpace) {
+        cell.clip_by_plane(half_space, &self.generators, &self.boundary);
+    }
+
+    /// Build the cell of generator `idx` with the real `ConvexCell::build`.
+    pub fn build_cell(&self, idx: usize) -> ConvexCell<WithoutFaces> {
+        let rtree = build_rtree(&self.generators);
+        let loc = self.generators[idx].loc();
+        let nearest_neighbours = if self.periodic {
+            wrapping_nn_iter(&rtree, loc, self.width, self.dimensionality)
+        } else {
+            nn_iter(&rtree, loc)
+        };
+        ConvexCell::build(loc, idx, &self.generators, nearest_neighbours, &self.boundary)
+    }
+
+    /// The position on the other side of `half_space` as used for the exact
+    /// test (neighbour plus shift, or the mirror image through a wall).
+    pub fn right_loc(&self, half_space: &HalfSpace, left_idx: usize) -> DVec3 {
+        half_space.right_loc(left_idx, &self.generators)
+    }
+
+    pub fn iloc(&self, loc: DVec3) -> [i64; 3] {
+        self.boundary.iloc(loc)
+    }
+}
+
+/// Safety radius of a (partially) built cell.
+pub fn safety_radius(cell: &ConvexCell<WithoutFaces>) -> f64 {
+    cell.safety_radius
+}
+
+/// `Space::knn` for the given particles.
+pub fn knn(anchor: DVec3, width: DVec3, max_cell_width: f64, positions: &[DVec3], k: usize) -> Vec<Vec<usize>> {
+    let mut space = Space::new(anchor, width, max_cell_width);
+    space.add_parts(positions);
+    space.knn(k)
+}
+
+pub fn welzl(points: &[DVec3]) -> Sphere {
+    Welzl::bounding_sphere(points)
+}
+
+pub fn epos6_points(points: &[DVec3]) -> Sphere {
+    Epos6::bounding_sphere(points)
+}
+
+pub fn epos6_spheres(spheres: &[Sphere]) -> Sphere {
+    Epos6::bounding_sphere_of_spheres(spheres)
+}
